@@ -1037,7 +1037,7 @@ func main() {
 		e.emit(c)
 	}
 	for i := 0; i < *nonepipe && len(hangs) < 2; i++ {
-		e.emit(genOnePipe(r.Fork(), 2+i%3, 3+i%2))
+		e.emit(genOnePipe(r.Fork(), 3+i%3, 4+i%2))
 	}
 	for i := 0; i < *nfresh && len(hangs) < 2; i++ {
 		e.emit(genFresh(r.Fork(), 2+i%3, 3, 1, 2))
